@@ -13,6 +13,7 @@ package operated
 
 //@ -- canonical case: spatialID = "gh/gx/gy/gv/gf" with the zoom a constant of the split
 //@ case GetShiftingSpatialID canonical
+//@   props C07 C08 C06 C14
 //@   shape spatialID ext gh gx gy gv gf
 //@   split gh 0..35
 //@   inline (*ExtendedSpatialID).ResetExtendedSpatialID unroll 0:5
@@ -73,6 +74,7 @@ package operated
 //@   ensures len(r0) == 6
 //@ end
 //@ case Get6spatialIdsAdjacentToFaces canonical
+//@   props C07 C08 C06 C14
 //@   shape spatialID ext gh gx gy gv gf
 //@   split gh 0..35
 //@   loop 0 unroll 2
@@ -87,6 +89,7 @@ package operated
 //@   ensures len(r0) == 8
 //@ end
 //@ case Get8spatialIdsAroundHorizontal canonical
+//@   props C07 C08 C06 C14
 //@   shape spatialID ext gh gx gy gv gf
 //@   split gh 0..35
 //@   loop 0 unroll 2
@@ -101,6 +104,7 @@ package operated
 //@   ensures len(r0) == 26
 //@ end
 //@ case Get26spatialIdsAroundVoxel canonical
+//@   props C07 C08 C06 C14
 //@   shape spatialID ext gh gx gy gv gf
 //@   split gh 0..35
 //@   loop 0 unroll 3
@@ -121,6 +125,7 @@ package operated
 //@ end
 //@ -- the layer counts the property quantifies over: the capacity computation does not overflow
 //@ case GetNspatialIdsAroundVoxcels small-layers
+//@   props C08 C14
 //@   split hLayers 0..4
 //@   split vLayers 0..4
 //@   ensures r1 == nil && nodup(r0)
